@@ -27,7 +27,7 @@ from common import Driver, tok, untok
 
 PROP = "C18"
 KEY_D5 = "D5:trim-nan-never-matches"
-KEY_D18A = "D18a:nothing-kept-1x1-not-empty"
+KEY_D18A = "D16:nothing-kept-1x1-not-empty"
 
 
 # ---------------------------------------------------------------- rasters
@@ -345,7 +345,7 @@ def declare(r):
     r.assumptions[:] = [
         "hand model (Model/Trim.lean) tied to zonal._trim/_crop/trim/crop by the correspondence run only",
         "the model follows the code as repaired by fixes/D5-trim-nan-aware-exclusion.patch and "
-        "fixes/D18a-trim-crop-empty-window.patch",
+        "fixes/D16-trim-crop-empty-window.patch",
         "exclusion / id lists are homogeneous (all ints or all floats) and non-empty: numba rejects the others",
         "NaN is not a zone id (crop compares with ==); an empty result is compared as 'empty' whatever its 0-sized shape",
         "crop with a values raster of another shape than zones: model = Python slice semantics, no oracle",
